@@ -72,7 +72,34 @@ void orc_c13_delivery(Delivery &d) {
              d.slot, n, last == 0 ? "low" : "normal", k, (unsigned long)since, (unsigned long)period);
 }
 
-void orc_c13_quiescent() {}
+// At the moment the loop goes back to polling everything it has received has been looked at: a message for a module that does not
+// batch (and through no low-priority subscription) has either been handed over or is still in a mailbox pipe, unread.
+void orc_c13_quiescent() {
+    if (!W->quiescent_real) return;
+    oracle_eval("C13.nothing-held-without-batching");
+    size_t strict = 0;
+    long first_id = -1; int first_slot = -1;
+    for (auto &sd : W->sends) {
+        if (sd.rc != 0 || sd.kind == 3 || sd.in_flush) continue;
+        for (int e : sd.eligible) {
+            if (sd.delivered.count(e) || sd.dead.count(e) || sd.unknown.count(e) || sd.oneshot_matched.count(e) || sd.low_matched.count(e) || has(sd.overflow, e)) continue;
+            Slot &r = W->slots[e];
+            if (r.st != ST_RUNNING || r.last_non_running_gseq >= sd.gseq || r.ctx_gen != W->ctx_registrations || r.pills_pending) continue;
+            if (r.batch_size || r.batch_timeout || r.batch_changed_gseq >= sd.gseq) continue;
+            if (!strict) { first_id = sd.id; first_slot = e; }
+            strict++;
+        }
+    }
+    if (!strict) return;
+    size_t in_pipes = 0;
+    for (int fd : R->k.open_fds(sim::OWN_LIB)) {
+        sim::File *f = R->k.get(fd);
+        if (f && f->kind == sim::F_PIPE_R && f->pipe) in_pipes += f->pipe->buf.size() / sizeof(void *);
+    }
+    if (strict > in_pipes)
+        VIOL("C13", "C13:event-held-without-batching", "%zu message(s) for modules that do not batch (first: #%ld for slot %d) are neither delivered nor unread in a mailbox (%zu message(s) in all mailboxes) when the loop goes back to polling",
+             strict, first_id, first_slot, in_pipes);
+}
 
 void orc_c13_loop_end(LoopRun &lr) {
     if (lr.poll_failure) return;
